@@ -14,7 +14,7 @@ LEVEL = "model_checking"
 RULE = (
     "states = (declaration route, domain, model kind, method, strict) tuples: routes {scalar Variable, VectorVariable, "
     "from_numpy, MatrixVariable, symmetric matrix, slice, stepped and reversed slices, row, column, diagonal, "
-    "transpose, sub-matrix, diag_matrix, mixed continuous+integer model, integer variable only in a constraint, "
+    "transpose, sub-matrix, diag_matrix, mixed continuous+integer model, integer variable only in a constraint, model made only of whole-vector aggregates of one vector object, "
     "containers with >=4 non-continuous elements} x {integer with integral / non-integral / no bounds, binary with user bounds contradicting [0,1]} x {linear "
     "model, nonlinear model} x every applicable method {auto, linprog, highs, highs-ds, highs-ipm | auto, SLSQP, "
     "trust-constr, L-BFGS-B, TNC, BFGS, CG, Newton-CG, Nelder-Mead, Powell, COBYLA} x {strict, non-strict}: the full "
@@ -92,6 +92,19 @@ def make_problem(kind, model, route, container, domain, attrs, continuous=False)
 
     obj, b = build_route(route, container, domain, attrs, continuous)
     vs = flat_vars(obj)
+    if kind == "whole-vector-only":
+        # every expression is a whole-vector aggregate of ONE VectorVariable object (no other variable in the model)
+        n = len(vs)
+        cvec = np.array([1.0 + 0.5 * i for i in range(n)])
+        P = optyx.Problem()
+        if model == "linear":
+            P.minimize(cvec @ obj)
+            P.subject_to(obj.sum() >= 1.5 - 3.0 * n)
+            P.subject_to((np.ones(n) @ obj) <= 2.5 * n)
+        else:
+            P.minimize(obj.dot(obj) - cvec @ obj)
+            P.subject_to(obj.sum() >= 0.7 - 3.0 * n)
+        return P, vs
     zc = optyx.Variable("zc", lb=0, ub=4)
     P = optyx.Problem()
     coef = [1.0 + 0.5 * i for i in range(len(vs))]
@@ -128,11 +141,14 @@ def make_problem(kind, model, route, container, domain, attrs, continuous=False)
     return P, vs
 
 
+WHOLE_VECTOR_ROUTES = ("vector", "slice", "stepped", "reversed", "view-of-view", "row", "column", "diagonal", "sym-row", "from_numpy")
+
+
 def all_cases(tier):
     idx = 0
     for (rl, route, container) in ROUTES:
         for (domain, attrs) in DOMAINS:
-            for kind in ("mixed", "only-in-constraint"):
+            for kind in ("mixed", "only-in-constraint") + (("whole-vector-only",) if rl in WHOLE_VECTOR_ROUTES else ()):
                 for model, methods in (("linear", LP_METHODS + ("SLSQP", "trust-constr")), ("nonlinear", NLP_METHODS)):
                     for m in methods:
                         if model == "linear" and kind == "only-in-constraint" and m not in ("auto", "linprog", "SLSQP"):
